@@ -195,7 +195,12 @@ def r2_delegation(ctx, tt):
     clone_line = min([n.lineno for n in walk_local(tt.node) if isinstance(n, ast.Call) and src(n.func).endswith('.clone')] or [10 ** 9])
     guards = {'interval': False, 'direction': False}
     for sp in symex.func_sym_paths(tt, limit=20000):
-        if sp.end != 'raise' or sp.path.end_node.lineno > clone_line:
+        if sp.end != 'raise':
+            continue
+        # "before the document is copied" is a fact about the order of events on the path (a validation helper that is inlined
+        # keeps its own line numbers)
+        if any(e.expr is not None and any(isinstance(c, ast.Call) and src(c.func).endswith('.clone') for c in ast.walk(e.expr))
+               for e in sp.events):
             continue
         exc = sp.path.end_node.exc
         name = src(exc.func) if isinstance(exc, ast.Call) else src(exc)
@@ -252,8 +257,16 @@ def r2_delegation(ctx, tt):
             b = F.bind_args(n, ctx.prog.find_method(st, '__init__'), True)
             e, c = b.get('encoding'), b.get('category')
 
-            def leaves(x):
-                return leaves(x.body) + leaves(x.orelse) if isinstance(x, ast.IfExp) else [x]
+            def leaves(x, seen=()):
+                if isinstance(x, ast.IfExp):
+                    return leaves(x.body, seen) + leaves(x.orelse, seen)
+                if isinstance(x, ast.Name) and x.id not in seen:
+                    # a local that receives the text on each branch (`new = subtoken.encoding` / `new = transpose(...)`)
+                    vals = [a.value for f3, a in scope_nodes() if isinstance(a, ast.Assign)
+                            and any(isinstance(t, ast.Name) and t.id == x.id for t in a.targets)]
+                    if vals:
+                        return [l for v in vals for l in leaves(v, seen + (x.id,))]
+                return [x]
             if isinstance(c, ast.Attribute) and c.attr == 'category' \
                     and any(isinstance(l, ast.Attribute) and l.attr == 'encoding' and src(l.value) == src(c.value) for l in leaves(e)):
                 copies += 1
